@@ -738,7 +738,8 @@ Definition vm_step (vr: variant) (s: vmstate) (op: vmop) : option (Z * vmstate) 
   | VLine => match frames s with [] => no_frame 1 | _ => Some (1, s) end
   | VFrame => match frames s with [] => no_frame 0 | _ => Some (1, s) end
   | VStack => Some (zlen (frames s), s)
-  | VModule => Some (0, s)
+  (* the frames the accessors' harness pushes are native-code frames: their module is the native module (c5cb351) *)
+  | VModule => Some (match frames s with [] => 0 | _ => 1 end, s)
   | VFind | VFindM => if native_scope s then Some (2, s) else match vr with Pinned => None | Repaired => Some (2, s) end
   | VFindGlobal => Some (1, s)
   | VSet => Some (2, s)
